@@ -456,4 +456,6 @@ func checkC15(t *testing.T, env *report.Env, rep *report.Report) {
 		bound = 3
 	}
 	hx.ExploreScenarios(t, env, rep, "sched-installs-vs-gets-vs-newupdater", list, bound, true, nil)
+	// updaters on names that have to be looked up first, racing lookups and polls
+	runSched(t, env, rep, map[string]bool{"C15": true}, "sched-updater-on-looked-up-name", lookupScenarios()[3:4], 2, 3)
 }
